@@ -37,7 +37,6 @@ from dulwich.objects import Blob, Tree
 from dulwich.pack import SHA1Writer
 
 from . import (
-    DEFAULT_MIME_TYPE,
     MIMETYPES,
     VALID_STORE_TYPES,
     DuplicateUidError,
@@ -49,6 +48,7 @@ from . import (
     NotStoreError,
     OutOfSpaceError,
     Store,
+    guess_mime_type,
     open_by_content_type,
     open_by_extension,
 )
@@ -413,10 +413,7 @@ class GitStore(Store):
         Returns: iterator over (name, content_type, etag) tuples
         """
         for name, mode, sha in self._iterblobs(ctag):
-            (mime_type, _) = MIMETYPES.guess_type(name)
-            if mime_type is None:
-                mime_type = DEFAULT_MIME_TYPE
-            yield (name, mime_type, sha.decode("ascii"))
+            yield (name, guess_mime_type(name), sha.decode("ascii"))
 
     @classmethod
     def create(cls, path):
